@@ -7,6 +7,7 @@ import (
 	"go/constant"
 	"go/token"
 	"go/types"
+	"golang.org/x/tools/go/packages"
 	"os/exec"
 	"path/filepath"
 	"sort"
@@ -127,53 +128,10 @@ func runC19(e *Env) {
 			// build-constrained files), the order chosen must be the target's (seed C19h: `arm` missing from a copied list of
 			// little-endian architectures). A run-time probe of memory is not a constant and is C02's business.
 			{
-				bigEndian := map[string]bool{"armbe": true, "arm64be": true, "m68k": true, "mips": true, "mips64": true, "mips64p32": true, "ppc": true, "ppc64": true, "s390": true, "s390x": true, "shbe": true, "sparc": true, "sparc64": true}
-				chosen := "" // "little", "big"
-				var walk func(stmts []ast.Stmt)
-				walk = func(stmts []ast.Stmt) {
-					for _, st := range stmts {
-						switch x := st.(type) {
-						case *ast.AssignStmt:
-							if len(x.Lhs) == 1 && len(x.Rhs) == 1 {
-								if id, ok := x.Lhs[0].(*ast.Ident); ok && id.Name == "nativeEndian" {
-									if sel, ok := x.Rhs[0].(*ast.SelectorExpr); ok {
-										switch sel.Sel.Name {
-										case "LittleEndian":
-											chosen = "little"
-										case "BigEndian":
-											chosen = "big"
-										}
-									}
-								}
-							}
-						case *ast.BlockStmt:
-							walk(x.List)
-						case *ast.IfStmt:
-							if x.Init != nil {
-								continue // not a plain constant test
-							}
-							tv, ok := root.TypesInfo.Types[x.Cond]
-							if !ok || tv.Value == nil || tv.Value.Kind() != constant.Bool {
-								continue // decided at run time: not this rule's business
-							}
-							if constant.BoolVal(tv.Value) {
-								walk(x.Body.List)
-							} else if x.Else != nil {
-								walk([]ast.Stmt{x.Else})
-							}
-						}
-					}
-				}
-				for _, f := range root.Syntax {
-					for _, d := range f.Decls {
-						if fd, ok := d.(*ast.FuncDecl); ok && fd.Recv == nil && fd.Body != nil && fd.Name.Name == "init" {
-							walk(fd.Body.List)
-						}
-					}
-				}
+				chosen := compileTimeByteOrder(root)
 				if chosen != "" {
 					want := "little"
-					if bigEndian[parts[1]] {
+					if bigEndianGOARCH[parts[1]] {
 						want = "big"
 					}
 					add(chosen == want, "E4.endian", t+"/compile-time-byte-order", "", "the byte order chosen at compile time is the target's ("+want+"-endian)",
@@ -557,4 +515,56 @@ func checkPortableCore(e *Env, targets []string) {
 		r.OK("E4.portable", "compiler-core", "", fmt.Sprintf("the %d functions the compiler entry points reach are declared in %d files that all %d targets build", len(seen), len(names), len(targets)))
 	}
 	r.Floor("E4.portable(functions of the compiler core)", len(seen), 15)
+}
+
+var bigEndianGOARCH = map[string]bool{"armbe": true, "arm64be": true, "m68k": true, "mips": true, "mips64": true, "mips64p32": true, "ppc": true, "ppc64": true, "s390": true, "s390x": true, "shbe": true, "sparc": true, "sparc64": true}
+
+// compileTimeByteOrder: "little" or "big" when an init function of the package assigns the byte-order variable behind
+// conditions that the type checker folds to constants for the target the package was loaded for; "" when the order is
+// decided at run time (or not in this shape).
+func compileTimeByteOrder(root *packages.Package) string {
+	chosen := ""
+	var walk func(stmts []ast.Stmt)
+	walk = func(stmts []ast.Stmt) {
+		for _, st := range stmts {
+			switch x := st.(type) {
+			case *ast.AssignStmt:
+				if len(x.Lhs) == 1 && len(x.Rhs) == 1 {
+					if id, ok := x.Lhs[0].(*ast.Ident); ok && id.Name == "nativeEndian" {
+						if sel, ok := x.Rhs[0].(*ast.SelectorExpr); ok {
+							switch sel.Sel.Name {
+							case "LittleEndian":
+								chosen = "little"
+							case "BigEndian":
+								chosen = "big"
+							}
+						}
+					}
+				}
+			case *ast.BlockStmt:
+				walk(x.List)
+			case *ast.IfStmt:
+				if x.Init != nil {
+					continue
+				}
+				tv, ok := root.TypesInfo.Types[x.Cond]
+				if !ok || tv.Value == nil || tv.Value.Kind() != constant.Bool {
+					continue
+				}
+				if constant.BoolVal(tv.Value) {
+					walk(x.Body.List)
+				} else if x.Else != nil {
+					walk([]ast.Stmt{x.Else})
+				}
+			}
+		}
+	}
+	for _, f := range root.Syntax {
+		for _, d := range f.Decls {
+			if fd, ok := d.(*ast.FuncDecl); ok && fd.Recv == nil && fd.Body != nil && fd.Name.Name == "init" {
+				walk(fd.Body.List)
+			}
+		}
+	}
+	return chosen
 }
